@@ -46,12 +46,13 @@ grp == File.groups[tid]
 SetOf(s) == {s[i] : i \in 1..Len(s)}
 
 Common(g) == IF Len(g.cases) < 2 THEN {} ELSE SetOf(g.cases[1].names) \cap SetOf(g.cases[2].names)
-Learn(f) == UNION {Common(f.groups[i]) : i \in {j \in 1..Len(f.groups) : f.groups[j].k = "benign"}}
+\* ("learn": the benign groups again, names only, in the second and later shards of a large run)
+Learn(f) == UNION {Common(f.groups[i]) : i \in {j \in 1..Len(f.groups) : f.groups[j].k \in {"benign", "learn"}}}
 
 TInit == \E f \in {JsonDeserialize(IOEnv.TRACE_FILE)} :
          /\ TLCSet(1, f)
-         /\ TLCSet(2, Learn(f))
-         /\ tid \in 1..Len(f.groups)
+         /\ \E tn \in {Learn(f)} : TLCSet(2, tn) /\ \A n \in tn : PrintT(<<"TNAME", n>>)
+         /\ tid \in {i \in 1..Len(f.groups) : f.groups[i].k # "learn"}
          /\ l = 1 /\ nrej = 0
          /\ flt = [valid |-> FALSE] /\ phase = "start" /\ toks = << >> /\ ctab = << >>
          /\ audit = << >> /\ gw = {} /\ res = "none"
